@@ -38,6 +38,19 @@ type RecProto struct {
 	// before AddPipe returns to the core (still inside pipe.lock).
 	InAdd func(name string)
 	mu    sync.Mutex
+	// Ctxs are the protocol level contexts opened through the socket, in order.
+	Ctxs []protocol.Context
+}
+
+// OpenContext records the protocol context the core is about to wrap.
+func (r *RecProto) OpenContext() (protocol.Context, error) {
+	c, err := r.Protocol.OpenContext()
+	if err == nil {
+		r.mu.Lock()
+		r.Ctxs = append(r.Ctxs, c)
+		r.mu.Unlock()
+	}
+	return c, err
 }
 
 func (r *RecProto) AddPipe(p protocol.Pipe) error {
